@@ -68,6 +68,7 @@ func (sc *rscenario) build(fs []fspec, seed int) {
 	sc.Frames = nil
 	sc.stream = nil
 	base := 0
+	var prevMask [4]byte
 	for i, f := range fs {
 		masked := sc.Side == "server"
 		if f.Unmask == 1 {
@@ -79,6 +80,10 @@ func (sc *rscenario) build(fs []fspec, seed int) {
 		if (i+seed)%3 == 1 {
 			mask = [4]byte{} // the all-zero key is a legal mask (and follows frames with other keys)
 		}
+		if (i+seed)%5 == 2 && i > 0 {
+			mask = prevMask // the same key as the frame before (a peer is free to repeat a key)
+		}
+		prevMask = mask
 		pay := f.Pay
 		if f.CodedN > 0 {
 			pay = vh.PBytes(0, base, base+f.CodedN)
